@@ -512,6 +512,8 @@ class KindFlow(MustFlow):
             elem = _k("I")
         elif "O" not in k:
             elem = DATA
+        elif isinstance(s.iter, ast.Name) and ("it", s.iter.id) in st:
+            elem = DATA  # an iterator made from a data container: `it = iter(path)`, `for segment in it`
         else:
             elem = ALL
         for name in self._targets(s.target):
